@@ -43,7 +43,7 @@ LeafTy   == {"leafError", "goErr", "ctxDeadline", "errno", "opaqueErrno", "pkgFu
 \* Multi-cause nodes: text = branch texts joined by NL ...
 JoinTy   == {"joinError", "goJoin"}
 \* ... or own text.
-MultiOwnTy == {"goWrapErrors", "opaqueLeafCauses", "uMulti", "uMultiIs", "uRegMulti"}
+MultiOwnTy == {"goWrapErrors", "opaqueLeafCauses", "uMulti", "uMultiIs", "uRegMulti", "uMultiCause"}
 OpaqueTy == {"opaqueLeaf", "opaqueLeafCauses", "opaqueWrapper"}
 
 WrapTy  == AnnotTy \cup PrefixTy \cup AlwaysPrefixTy \cup FullTy \cup {"opaqueWrapper"}
@@ -56,7 +56,7 @@ IsWrap(v)  == v.ty \in WrapTy \/ (v.ty = "uMaybe" /\ Len(v.kids) = 1)
 IsLeaf(v)  == ~IsWrap(v) /\ ~IsMulti(v)
 
 \* Types that only expose Cause(), invisible to the standard library.
-CauseOnlyTy == {"uWrapC"}
+CauseOnlyTy == {"uWrapC", "uMultiCause"}
 \* Wrapper types without a Cause() method, invisible to pkg/errors.Cause.
 NoCauseTy == {"goWrapError", "osPathError", "osLinkError", "osSyscallError", "netOpError", "uWrapU", "uWrapFull", "uRegWrap", "uRegWrapFull",
               "uAnnotWrap", "uKeyWrap", "uMaybe"}
